@@ -437,6 +437,23 @@ class Translator:
     t_SetComp = t_ListComp
     t_DictComp = t_ListComp
 
+    def t_Lambda(self, n):
+        a = n.args
+        if a.vararg or a.kwarg or a.kwonlyargs or a.defaults or a.kw_defaults:
+            raise AnalysisError(f"lambda with defaults / star parameters: `{unparse(n)}`")
+        depth = getattr(self, "_lambda_depth", 0)
+        params = [sp.Symbol(f"_lp{depth}_{i}", real=True) for i, _ in enumerate(a.posonlyargs + a.args)]
+        saved = dict(self.env)
+        self._lambda_depth = depth + 1
+        try:
+            for p, x in zip(params, a.posonlyargs + a.args):
+                self.env[x.arg] = p
+            body = self.tr(n.body)
+        finally:
+            self.env = saved
+            self._lambda_depth = depth
+        return sp.Function("lambda_")(sp.Tuple(*params), body)
+
     def t_Starred(self, n):
         return sp.Function("splat")(self.tr(n.value))
 
